@@ -59,7 +59,8 @@ def gen_case(rng, max_n):
     t1, t2 = sorted([thr(), thr()])
     return {"method": meth, "n": n, "kind": kind, "matrix": m, "t1": t1, "t2": t2,
             "container": rng.choice(["list", "list", "numpy"]),
-            "names": rng.choice(["plain", "odd"]), "int_thr": rng.random() < 0.3}
+            "names": rng.choice(["plain", "odd"]), "int_thr": rng.random() < 0.3,
+            "entry": rng.choice(["flat_cluster", "flat_upgma"])}
 
 
 def exhaustive_cases(n_max=4, vals=(F(0), F(1, 2), F(1)), thrs=(F(0), F(3, 10), F(1, 2), F(1))):
@@ -97,14 +98,15 @@ def run_impl(case):
 
     def thr(t):     # thresholds that are whole numbers are sometimes passed as int (0, 1, 2)
         return int(t) if case.get("int_thr") and t.denominator == 1 else float(t)
-    out = clustering.flat_cluster(meth, thr(case["t1"]), mk())
-    rev = clustering.flat_cluster(meth, thr(case["t1"]), mk(), revert=True)
-    tx = clustering.flat_cluster(meth, thr(case["t1"]), mk(), taxa)
-    out2 = clustering.flat_cluster(meth, thr(case["t2"]), mk())
-    if meth == "upgma":                # the dedicated entry point must agree with flat_cluster('upgma')
-        fu = clustering.flat_upgma(thr(case["t1"]), mk())
-        if {int(k): [int(i) for i in v] for k, v in fu.items()} != {int(k): [int(i) for i in v] for k, v in out.items()}:
-            out = fu
+    def fc(t, m, *a, **k):
+        # the dedicated entry point flat_upgma(threshold, matrix, taxa, revert) in half of the upgma cases
+        if meth == "upgma" and case.get("entry") == "flat_upgma":
+            return clustering.flat_upgma(t, m, *a, **k)
+        return clustering.flat_cluster(meth, t, m, *a, **k)
+    out = fc(thr(case["t1"]), mk())
+    rev = fc(thr(case["t1"]), mk(), revert=True)
+    tx = fc(thr(case["t1"]), mk(), taxa)
+    out2 = fc(thr(case["t2"]), mk())
     res = {
         "out": [(int(k), [int(i) for i in v]) for k, v in out.items()],
         "rev": [(int(i), int(k)) for i, k in rev.items()],
@@ -191,6 +193,7 @@ def shrink(case):
 def classify(case, res):
     return ["method=" + case["method"], "n=%d" % case["n"], "kind=" + case["kind"],
             "container=" + case.get("container", "list"), "names=" + case.get("names", "plain"),
+            "entry=" + (case.get("entry", "flat_cluster") if case["method"] == "upgma" else "flat_cluster"),
             "clusters_t1=%d" % len(res["out"]),
             "thr_is_entry" if any(case["t1"] == x for r in case["matrix"] for x in r) else "thr_not_entry"]
 
